@@ -153,8 +153,10 @@ Fixpoint de_val (t : rty) (s : shape) : option rval :=
   | TOption _, SNull => Some RNone
   | TOption t', _ => option_map RSome (de_val t' s)
   | TElem, SOne => Some ROne
-  | TVec t', SMany n => match de_val t' SOne with Some _ => Some (RMany n) | None => None end
-  | TMap t', SObj n => match de_val t' SOne with Some _ => Some (RObj n) | None => None end
+  | TVec t', SMany n => if n =? 0 then Some (RMany n)                       (* the elements are scalars *)
+                        else match de_val t' SOne with Some _ => Some (RMany n) | None => None end
+  | TMap t', SObj n => if n =? 0 then Some (RObj n)
+                       else match de_val t' SOne with Some _ => Some (RObj n) | None => None end
   | _, _ => None
   end.
 
